@@ -59,6 +59,11 @@ where
         }
       }
 
+      // the subscriber may have finished on the value it was just handed
+      // (take(1), first, ...): then there is nothing left to forward to
+      if !s.is_subscribed() {
+        return;
+      }
       let sbsc = Arc::new(RwLock::new(None::<Subscription>));
       {
         let sbsc = Arc::clone(&sbsc);
